@@ -44,7 +44,10 @@ fn judge_raw(scn: &McScenario, obs: &McObservation, acc: &mut Acc) -> Option<Vio
         }
         Outcome::Ok(Verdict::Fail(w)) if reachable => {
             acc.count("verdict.fail", 1);
-            match obs.parsed.as_ref().map(|n| check_witness(&scn.sys, n, w)) {
+            // a witness has no slot for the later values of a state that has an init value but
+            // no next-state function, so its replay is not defined for such systems
+            let replayable = !scn.sys.states.iter().any(|s| s.init.is_some() && s.next.is_none());
+            match obs.parsed.as_ref().filter(|_| replayable).map(|n| check_witness(&scn.sys, n, w)) {
                 Some(Err(e)) if !e.starts_with("HARNESS") => Some(mk(
                     "C10/witness",
                     "BogusWitness",
@@ -125,9 +128,12 @@ fn judge_raw(scn: &McScenario, obs: &McObservation, acc: &mut Acc) -> Option<Vio
     }
 }
 
-fn gen_system_c10(rng: &mut Rng, msb: u32, mib: u32, harder: bool) -> crate::refsem::sys::Sys {
+fn gen_system_c10(rng: &mut Rng, msb: u32, mib: u32, harder: bool, free_next: bool) -> crate::refsem::sys::Sys {
     gen_system(rng, msb, mib, true, |c| {
         c.arrays = false;
+        // states with an init value but no next-state function: free from step 1 on (the
+        // reference reachability enumerates their valuations)
+        c.init_without_next = free_next;
         if harder {
             // counters / shift registers starting from a defined state: needs several frames
             c.structured = true;
@@ -193,9 +199,10 @@ impl Property for C10 {
         let harder = crng.chance(3, 4);
         let max_depth = 10;
         let mut tries = 0;
+        let free_next = crng.chance(1, 5);
         let (sys, r) = loop {
             tries += 1;
-            let sys = gen_system_c10(&mut rng, msb, mib, harder && tries <= 200);
+            let sys = gen_system_c10(&mut rng, msb, mib, harder && tries <= 200, free_next);
             let r = reach(&sys, 0);
             // bound the length of the PDR run by the oracle's diameter (a workload bound, not a
             // watchdog: the step budget stays a violation)
@@ -248,6 +255,7 @@ impl Property for C10 {
                     let _ = fh.write_all(line.as_bytes());
                 }
             }
+            acc.count("probe.state_with_init_without_next", scn.sys.states.iter().any(|s| s.init.is_some() && s.next.is_none()) as u64);
             acc.count("probe.bad_reachable", r.min_bad_depth.is_some() as u64);
             acc.count("probe.bad_reachable_at_depth_ge_3", r.min_bad_depth.map(|d| d >= 3).unwrap_or(false) as u64);
             acc.count("probe.safe_with_fixpoint_depth_ge_3", (r.min_bad_depth.is_none() && r.fixpoint_depth >= 3) as u64);
